@@ -29,9 +29,21 @@ import xgi
 from .. import c09_measures as CM
 from ..core import unlisted_violations  # noqa: E402
 from ..core import Infra, TRUSTED_COMMON, VERIF, build_and_audit, canon, dec_id, enc_id, finish, jhash, run_driver
-from ..fn import EDGE_IDS, LABELS, all_small_hypergraphs, enc_net, gen_hypergraph
+from .. import fn as _fn
+from ..fn import all_small_hypergraphs, enc_net, gen_hypergraph
 
-RELABELS = ("ints", "perm", "str")
+BIG = 2 ** 53           # integers above it are not exactly representable as floats (BIG+1 and BIG+2 collide under float())
+# review 2 (escape 9a): pools whose members are EQUAL UNDER str() / format() (1 and "1", 0 and "0") for node labels and
+# for edge IDs; fn.LABELS / fn.EDGE_IDS never put such a pair into one network
+COLLIDE_N = [1, "1", 0, "0", 2, "2", 3, "3", 4, "4", 5, "5"]
+COLLIDE_E = ["0", 0, "1", 1, "2", 2, "3", 3, "4", 4, "5", 5]
+LABELS = list(_fn.LABELS) + [lambda k: COLLIDE_N[:k]]
+EDGE_IDS = list(_fn.EDGE_IDS) + [lambda m: COLLIDE_E[:m]]
+
+RELABELS = ("ints", "perm", "str", "collide", "tuple")
+# these relabellings produce labels that are not mutually orderable: the measures that sort labels (simpliciality: the Trie
+# sorts members) are not compared under them (assumption in the evidence)
+UNORDERABLE = {"collide": {"orderable", "eids-orderable"}, "tuple": {"orderable", "eids-orderable"}}
 
 
 # ------------------------------------------------------------------------------------------------ cases and variants
@@ -78,9 +90,36 @@ def gen_big_case(rng, i):
     return lab, [(eid[j], rng.sample(lab, min(k, sz))) for j, sz in enumerate(sizes)]
 
 
+def gen_chain_case(rng, i):
+    """a path-like hypergraph of 5-8 nodes (edges of size 2-3 overlapping in one node, now and then a gap), edges listed
+    from a random end or shuffled, nodes listed in another order than the edges touch them: long dependency chains for
+    anything that merges / propagates along edges (union-find forests, BFS layers, distance tables)"""
+    k = rng.randint(5, 8)
+    lab = LABELS[(i // CHAIN_EVERY) % len(LABELS)](k)
+    rng.shuffle(lab)
+    path, j = [], 0
+    while j < k - 1:
+        sz = 2 if rng.random() < 0.75 else 3
+        path.append(lab[j:j + sz])
+        j += sz - 1
+        if rng.random() < 0.1:
+            j += 1
+    order = rng.choice(["forward", "backward", "shuffled"])
+    if order == "backward":
+        path.reverse()
+    elif order == "shuffled":
+        rng.shuffle(path)
+    path = [ms[::-1] if rng.random() < 0.5 else ms for ms in path if ms]
+    eid = EDGE_IDS[(i // CHAIN_EVERY) % len(EDGE_IDS)](len(path))
+    nodes = list(lab)
+    rng.shuffle(nodes)
+    return nodes, [(eid[j], ms) for j, ms in enumerate(path)]
+
+
 WEIGHTS = [1, 2, 3, 0.5, 2.5]
 MASSES = [1, 2, 5]
 BIG_EVERY = 12          # every 12th generated case is a gen_big_case
+CHAIN_EVERY = 6         # every 6th one a gen_chain_case
 
 
 def gen_attrs(rng, nodes, edges):
@@ -94,7 +133,7 @@ def gen_attrs(rng, nodes, edges):
 
 
 def mk_case(rng, i):
-    nodes, edges = gen_big_case(rng, i) if i % BIG_EVERY == 5 else gen_case(rng, i)
+    nodes, edges = gen_big_case(rng, i) if i % BIG_EVERY == 5 else gen_chain_case(rng, i) if i % CHAIN_EVERY == 2 else gen_case(rng, i)
     nattr, eattr = gen_attrs(rng, nodes, edges)
     return {"nodes": [enc_id(n) for n in nodes], "edges": [[enc_id(e), [enc_id(x) for x in ms]] for e, ms in edges],
             "nattr": nattr, "eattr": eattr}
@@ -123,8 +162,24 @@ def make_variant(rng, nodes, edges, relabel, nodes_first):
         pi = {n: n for n in nodes}
         sigma = {e: e for e, _ in edges}
     elif relabel == "ints":
-        pi = dict(zip(nodes, rng.sample(range(40, 43 + 3 * k), k)))
-        sigma = dict(zip([e for e, _ in edges], rng.sample(range(20, 23 + 3 * m), m)))
+        # gapped integers; in half of the variants they lie above 2**53 (neighbours collide under float())
+        on, oe = (BIG if rng.random() < 0.5 else 0), (BIG if rng.random() < 0.5 else 0)
+        pi = dict(zip(nodes, [on + x for x in rng.sample(range(40, 43 + 3 * k), k)]))
+        sigma = dict(zip([e for e, _ in edges], [oe + x for x in rng.sample(range(20, 23 + 3 * m), m)]))
+    elif relabel == "collide":
+        # into a pool whose members are pairwise equal under str(): 1 / "1", 0 / "0", … (first the pairs, so that a
+        # small network gets both members of a pair)
+        need_n, need_e = 2 * ((k + 1) // 2), 2 * ((m + 1) // 2)
+        pn = (COLLIDE_N + ["6", 6, "7", 7])[:max(need_n, 2)]
+        pe = (COLLIDE_E + [6, "6", 7, "7"])[:max(need_e, 2)]
+        pi = dict(zip(nodes, rng.sample(pn, k)))
+        sigma = dict(zip([e for e, _ in edges], rng.sample(pe, m)))
+    elif relabel == "tuple":
+        # tuple node labels and tuple edge IDs (mixed with their own str() and with plain ints: never orderable)
+        pn = [(0, 0), (0, 1), (1, 0), (1,), (0,), (1, 1), ("a", 0), (0, 0, 0), (2, 1), "(0, 1)", 0, 1, (2,), (3, 0), (0, 3), (4,)]
+        pe = [(0, 1), (1, 0), (0,), (1,), (0, 0), (2, 1), ("e", 0), (1, 1), "(0, 1)", 0, 1, (3,), (4,), (5,), (6,), (7,)]
+        pi = dict(zip(nodes, rng.sample(pn, k)))
+        sigma = dict(zip([e for e, _ in edges], rng.sample(pe, m)))
     elif relabel == "perm":
         # the ID of the p-th inserted edge is perm[p] != p for some p: an ID is not its position
         pp, pe = _nonid_perm(rng, k), _nonid_perm(rng, m)
@@ -430,6 +485,361 @@ def compare_model(case, H, base, resp):
     return dis
 
 
+
+# ------------------------------------------------------------------------------------------------ review-2 families
+# (implementation only; nothing here is sent to the Lean driver)
+
+def rebuild(H):
+    """a FRESH xgi.Hypergraph with the structure and attributes the live object H has now, inserted in H's own order"""
+    F = xgi.Hypergraph()
+    for n in H.nodes:
+        F.add_node(n, **dict(H.nodes[n]))
+    for e in H.edges:
+        F.add_edge(list(H.edges.members(e)), idx=e, **dict(H.edges[e]))
+    return F
+
+
+HELD_EDITS = ("swap-edge", "swap-member", "add-edge", "remove-node", "remove-edge", "add-node-to-edge")
+
+
+def gen_held_edit(rng, H, kind):
+    """one edit as primitive operations [[method, args…]…]; swap-edge and swap-member keep num_nodes and num_edges"""
+    nodes, eids = list(H.nodes), list(H.edges)
+    ints = [e for e in eids if isinstance(e, int)]
+    new_id = (max(ints) + 1 + rng.randint(0, 2)) if ints else "held%d" % rng.randint(0, 9)
+    while new_id in eids:
+        new_id = str(new_id) + "x"
+    if kind == "swap-edge":
+        if not eids or len(nodes) < 2:
+            return None
+        e = rng.choice(eids)
+        old = set(H.edges.members(e))
+        for _ in range(20):
+            new = rng.sample(nodes, rng.randint(1, min(4, len(nodes))))
+            if set(new) != old:
+                return [["remove_edge", enc_id(e)], ["add_edge", [enc_id(x) for x in new], enc_id(new_id), rng.choice(WEIGHTS + [None])]]
+        return None
+    if kind == "swap-member":
+        cand = [(e, n) for e in eids for n in nodes if n not in H.edges.members(e)]
+        if not cand:
+            return None
+        e, n = rng.choice(cand)
+        out = rng.choice(sorted(H.edges.members(e), key=repr))
+        return [["add_node_to_edge", enc_id(e), enc_id(n)], ["remove_node_from_edge", enc_id(e), enc_id(out)]]
+    if kind == "add-edge":
+        pool = nodes + (["held-new-node"] if rng.random() < 0.3 and "held-new-node" not in nodes else [])
+        return [["add_edge", [enc_id(x) for x in rng.sample(pool, rng.randint(1, min(4, len(pool))))], enc_id(new_id), rng.choice(WEIGHTS + [None])]] if pool else None
+    if kind == "remove-node":
+        return [["remove_node", enc_id(rng.choice(nodes))]] if len(nodes) > 1 else None
+    if kind == "remove-edge":
+        return [["remove_edge", enc_id(rng.choice(eids))]] if eids else None
+    cand = [(e, n) for e in eids for n in nodes if n not in H.edges.members(e)]
+    if not cand:
+        return None
+    e, n = rng.choice(cand)
+    return [["add_node_to_edge", enc_id(e), enc_id(n)]]
+
+
+def apply_held_edit(H, ops):
+    for op in ops:
+        if op[0] == "add_edge":
+            attr = {} if len(op) < 4 or op[3] is None else {"weight": op[3]}
+            H.add_edge([dec_id(x) for x in op[1]], idx=dec_id(op[2]), **attr)
+        else:
+            getattr(H, op[0])(*[dec_id(a) for a in op[1:]])
+
+
+def _flags_of(H):
+    return ({"orderable"} if not CM.orderable(list(H.nodes)) else set()) | ({"eids-orderable"} if not CM.orderable(list(H.edges)) else set())
+
+
+def held_differs(case, edits, label, warm="all"):
+    """replay of a held-object finding: build the network, call the measures (`warm`: "all" = every measure in table
+    order, "one" = only `label`), apply the edits to the SAME object (calling again after each), and compare `label`
+    on the live object with `label` on a freshly built equal network.  Returns detail or None."""
+    H = build_orig(case)
+    ident = lambda G: ({n: n for n in G.nodes}, {e: e for e in G.edges})
+    warm_labels = None if warm == "all" else {label}
+    CM.evaluate(H, *ident(H), labels=warm_labels, skip_flags=_flags_of(H))
+    for ops in edits:
+        try:
+            apply_held_edit(H, ops)
+        except Exception:  # noqa
+            return None
+        if ops is not edits[-1]:
+            CM.evaluate(H, *ident(H), labels=warm_labels, skip_flags=_flags_of(H))
+    a = CM.evaluate(H, *ident(H), labels={label}).get(label)
+    F = rebuild(H)
+    b = CM.evaluate(F, *ident(F), labels={label}).get(label)
+    tol = CM.BY_LABEL[label][3]
+    if a is None or b is None or CM.same(a, b, tol):
+        return None
+    return (f"{label}: on the live object after {json.dumps(edits)} vs on a freshly built equal network: " + CM.first_diff(a, b, tol))[:600]
+
+
+def run_held(ctx, n, first_seen=None):
+    """HELD OBJECT: every measure is called on one object (table order), compared with the same measures called in the
+    OPPOSITE order on a freshly built equal network (class depends-on-earlier-call); then the object is edited in place
+    (count-preserving: remove an edge + add another / swap a member; ordinary: add an edge, remove a node, remove an
+    edge, add a member) and after every edit all measures are called again on the same object and compared with a
+    freshly built equal network (class stale-after-edit)."""
+    rng = ctx.rng
+    ident = lambda G: ({x: x for x in G.nodes}, {e: e for e in G.edges})
+    for i in range(n):
+        case = mk_case(rng, rng.randint(0, 10 ** 6))
+        if len(case["nodes"]) > 8:
+            continue
+        H = build_orig(case)
+        edits = []
+        kinds = [rng.choice(HELD_EDITS[:2]), rng.choice(HELD_EDITS[2:])]
+        rng.shuffle(kinds)
+        ctx.stats["held-object:sequences"] += 1
+        for step in range(len(kinds) + 1):
+            if step:
+                ops = gen_held_edit(rng, H, kinds[step - 1])
+                if not ops:
+                    continue
+                try:
+                    apply_held_edit(H, ops)
+                except Exception:  # noqa   (an edit the library refuses ends the sequence; nothing is claimed)
+                    break
+                edits.append(ops)
+                ctx.stats["held-object:edit:" + kinds[step - 1]] += 1
+            fl = _flags_of(H)
+            a = CM.evaluate(H, *ident(H), skip_flags=fl)
+            F = rebuild(H)
+            b = CM.evaluate(F, *ident(F), skip_flags=fl, reverse=True)
+            ctx.evaluations += len(a)
+            cls = "stale-after-edit" if edits else "depends-on-earlier-call"
+            for label, va in a.items():
+                site, _, shape, tol, flags, _ = CM.BY_LABEL[label]
+                if label not in b or CM.same(va, b[label], tol) or CM.NO_ANSWER in (va, b[label]):
+                    continue
+                detail = (f"{label}: on the live object after {json.dumps(edits) if edits else 'the earlier calls'} vs on a freshly built equal "
+                          "network: " + CM.first_diff(va, b[label], tol))[:600]
+                c, ed, warm = case, [list(x) for x in edits], "all"
+                if first_seen is not None and (site, cls) not in first_seen:
+                    first_seen.add((site, cls))
+                    # shrink: only the last edit / only the measure itself as the earlier call, when that still shows it
+                    for cand_ed, cand_warm in ((ed[-1:], "one"), (ed, "one"), (ed[-1:], "all")):
+                        try:
+                            d2 = forced(held_differs, case, cand_ed, label, cand_warm) if edits else None
+                        except Exception:  # noqa
+                            d2 = None
+                        if d2:
+                            ed, warm, detail = cand_ed, cand_warm, d2
+                            break
+                ctx.violation(site, cls, {"measure": label, "original": c, "held": {"edits": ed, "warm": warm}}, detail=detail)
+                ctx.stats["violation:" + site] += 1
+
+
+LARGE_LABELS = ["nodes.degree", "edges.size", "degree statistics", "nodes.neighbors", "nodes.average_neighbor_degree", "clustering_coefficient",
+                "local_clustering_coefficient", "two_node_clustering_coefficient:union", "connected_components", "number_connected_components",
+                "is_connected", "largest_connected_component", "node_connected_component", "shortest_path_length", "density:0", "incidence_density:1",
+                "degree_counts", "unique_edge_sizes", "degree_assortativity:uniform:exact", "degree_assortativity:top-2:exact", "dynamical_assortativity",
+                "edges.maximal", "edges.duplicates (classes)", "katz_centrality", "incidence_matrix(order=None)", "incidence_matrix(sparse)",
+                "adjacency_matrix(order=None,s=1,weighted=True)", "adjacency_matrix(sparse,weighted)", "laplacian(order=1)", "laplacian(order=2)",
+                "multiorder_laplacian", "normalized_hypergraph_laplacian(sparse)", "clique_motif_matrix", "degree_matrix", "nodes.degree(weight)",
+                "incidence_matrix(weight=edge attribute)", "to_line_graph(s=1)", "nodes.isolates", "edges.singletons",
+                "simplicial_fraction", "edit_simpliciality"]
+LARGE_HEAVY = {"local_clustering_coefficient", "to_line_graph(s=1)", "edges.maximal", "edges.duplicates (classes)", "simplicial_fraction", "edit_simpliciality",
+               "two_node_clustering_coefficient:union", "node_connected_component"}
+
+
+def gen_large_case(rng, i):
+    """REGIME: i % 2 == 0: 70-90 nodes in a few chains / a sparse random part (sizes 2-4, repeated edges), node labels and
+    edge IDs with integers above 2**53;  i % 2 == 1: 8-10 nodes and 130-140 parallel edges on one pair plus a few others"""
+    if i % 2 == 0:
+        k = rng.randint(70, 90)
+        lab = rng.sample(range(3 * k), k - 3) + [BIG + 1, BIG + 2, 2 ** 64 + 1]
+        rng.shuffle(lab)
+        edges, j = [], 0
+        while j < k - 1:
+            sz = rng.randint(2, 3)
+            edges.append(lab[j:j + sz])
+            if rng.random() < 0.25:
+                edges.append(lab[j:j + 2])
+            j += rng.randint(1, sz - 1) if sz > 2 else 1
+            if rng.random() < 0.04:
+                j += 1
+        edges += [rng.sample(lab, rng.choice([2, 3, 4])) for _ in range(rng.randint(0, 6))]
+    else:
+        k = rng.randint(8, 10)
+        lab = rng.sample(range(40), k - 2) + [BIG + 1, BIG + 2]
+        rng.shuffle(lab)
+        a, b = rng.sample(lab, 2)
+        edges = [[a, b] for _ in range(rng.randint(130, 140))] + [rng.sample(lab, rng.randint(1, 4)) for _ in range(rng.randint(2, 6))]
+    rng.shuffle(edges)
+    m = len(edges)
+    eid = rng.choice([lambda: list(range(m)), lambda: [BIG + 1 + j for j in range(m)][::-1], lambda: list(range(1, m)) + [0]])()
+    edges = [(eid[j], ms) for j, ms in enumerate(edges)]
+    eattr = [[enc_id(e), {"weight": rng.choice(WEIGHTS)}] for e, _ in edges if rng.random() < 0.5]
+    return {"nodes": [enc_id(n) for n in lab], "edges": [[enc_id(e), [enc_id(x) for x in ms]] for e, ms in edges], "nattr": [], "eattr": eattr}
+
+
+def run_large(ctx, n, first_seen=None):
+    """REGIME family: a few large networks, the cheaper measures only, original vs one re-insertion and two relabellings"""
+    rng = ctx.rng
+    old = dict(CM.GUARD)
+    CM.GUARD.update({"s": 6.0})
+    try:
+        for i in range(n):
+            case = gen_large_case(rng, i)
+            labels = set(LARGE_LABELS) - (LARGE_HEAVY if len(case["edges"]) > 120 and i % 4 == 3 else set())
+            H = build_orig(case)
+            nodes = [dec_id(x) for x in case["nodes"]]
+            edges = [(dec_id(e), [dec_id(x) for x in ms]) for e, ms in case["edges"]]
+            base = CM.evaluate(H, {x: x for x in H.nodes}, {e: e for e in H.edges}, labels=labels)
+            ctx.evaluations += len(base)
+            ctx.stats["large:networks"] += 1
+            ctx.stats["large:max_nodes"] = max(ctx.stats["large:max_nodes"], len(nodes))
+            ctx.stats["large:max_edges"] = max(ctx.stats["large:max_edges"], len(edges))
+            ctx.nontrivial.add(jhash(case))
+            for relabel in (rng.choice(["id", "perm"]), rng.choice(["ints", "str"])):
+                var = make_variant_large(rng, nodes, edges, relabel)
+                H2, inv_n, inv_e = build_variant(var, case)
+                res = CM.evaluate(H2, inv_n, inv_e, labels=labels)
+                ctx.evaluations += len(res)
+                ctx.stats["large:variant:" + relabel] += 1
+                for label, b in res.items():
+                    site, _, shape, tol, flags, _ = CM.BY_LABEL[label]
+                    if label not in base or CM.same(base[label], b, tol):
+                        continue
+                    cls = "not-order-invariant" if relabel == "id" else "not-relabel-invariant"
+                    detail = f"{label}: original vs {relabel}-relabelled/reordered (mapped back), large network: " + CM.first_diff(base[label], b, tol)
+                    c, v = case, var
+                    if first_seen is not None and (site, cls) not in first_seen:
+                        first_seen.add((site, cls))
+                        try:
+                            c, v = shrink_large(case, var, label)
+                            d2 = forced(differs, c, v, label)
+                            c, v, detail = (c, v, d2) if d2 else (case, var, detail)
+                        except Exception:  # noqa
+                            c, v = case, var
+                    ctx.violation(site, cls, {"measure": label, "original": c, "variant": v, "relabelled": variant_net(v, c)}, detail=detail)
+                    ctx.stats["violation:" + site] += 1
+    finally:
+        CM.GUARD.update(old)
+
+
+def make_variant_large(rng, nodes, edges, relabel):
+    k, m = len(nodes), len(edges)
+    if relabel in ("id", "perm"):
+        return make_variant(rng, nodes, edges, relabel, rng.random() < 0.5)
+    var = make_variant(rng, nodes, edges, "id", rng.random() < 0.5)
+    if relabel == "ints":
+        pi = dict(zip(nodes, [BIG + x for x in rng.sample(range(3 * k), k)]))
+        sigma = dict(zip([e for e, _ in edges], rng.sample(range(20, 23 + 3 * m), m)))
+    else:
+        pi = dict(zip(nodes, rng.sample(["n%d" % j for j in range(2 * k)], k)))
+        sigma = dict(zip([e for e, _ in edges], rng.sample(["e%d" % j for j in range(2 * m)], m)))
+    var["relabel"] = relabel
+    var["pi"] = [[enc_id(a), enc_id(b)] for a, b in pi.items()]
+    var["sigma"] = [[enc_id(a), enc_id(b)] for a, b in sigma.items()]
+    return var
+
+
+def shrink_large(case, var, label):
+    """halving: drop blocks of edges (from both networks) while the difference persists; then the greedy shrinker"""
+    def still(c, v):
+        try:
+            return forced(differs, c, v, label, quick=True) is not None
+        except Exception:  # noqa
+            return False
+    block = max(1, len(case["edges"]) // 2)
+    budget = 60
+    while block >= 1 and budget > 0:
+        j = 0
+        while j < len(case["edges"]) and budget > 0:
+            drop = {json.dumps(e) for e, _ in case["edges"][j:j + block]}
+            c = dict(case, edges=[p for p in case["edges"] if json.dumps(p[0]) not in drop], eattr=[p for p in case.get("eattr", []) if json.dumps(p[0]) not in drop])
+            v = dict(var, edges=[p for p in var["edges"] if json.dumps(p[0]) not in drop], sigma=[p for p in var["sigma"] if json.dumps(p[0]) not in drop])
+            budget -= 1
+            if c["edges"] != case["edges"] and still(c, v):
+                case, var = c, v
+            else:
+                j += block
+        block //= 2
+    used = {json.dumps(x) for _, ms in case["edges"] for x in ms}
+    c = dict(case, nodes=[n for n in case["nodes"] if json.dumps(n) in used], nattr=[p for p in case.get("nattr", []) if json.dumps(p[0]) in used])
+    v = dict(var, nodes=[n for n in var["nodes"] if json.dumps(n) in used], pi=[p for p in var["pi"] if json.dumps(p[0]) in used])
+    if still(c, v):
+        case, var = c, v
+    if len(case["edges"]) <= 12:
+        case, var = shrink(case, var, label, budget=60)
+    return case, var
+
+
+# ---- SimplicialComplex instances: "for all hypergraphs" includes the subclass
+
+SC_SKIP = {"order-only", "eids-orderable"}
+
+
+def sc_build(nodes, simplices):
+    S = xgi.SimplicialComplex()
+    S.add_nodes_from(nodes)
+    for ms in simplices:
+        S.add_simplex(ms)
+    return S
+
+
+def sc_differs(nodes, simplices, pi, order_seed, label):
+    """label on the complex of `simplices` vs on the complex of the relabelled simplices inserted in another order; a
+    complex names its own faces, so edge IDs are matched through the member sets"""
+    import random as _r
+    S = sc_build(nodes, simplices)
+    r = _r.Random(order_seed)
+    n2 = [pi[x] for x in nodes]
+    r.shuffle(n2)
+    s2 = [r.sample([pi[x] for x in ms], len(ms)) for ms in simplices]
+    r.shuffle(s2)
+    T = sc_build(n2, s2)
+    inv_n = {v: k for k, v in pi.items()}
+    byset = {frozenset(S.edges.members(e)): e for e in S.edges}
+    try:
+        inv_e = {e: byset[frozenset(inv_n[x] for x in T.edges.members(e))] for e in T.edges}
+    except KeyError:
+        return f"{label}: the relabelled complex does not have the same faces"
+    if len(inv_e) != len(byset):
+        return f"{label}: the relabelled complex has {len(inv_e)} faces, the original {len(byset)}"
+    fl = SC_SKIP | ({"orderable"} if not (CM.orderable(list(S.nodes)) and CM.orderable(list(T.nodes))) else set())
+    if CM.BY_LABEL[label][4] & fl:
+        return None
+    a = CM.evaluate(S, {x: x for x in S.nodes}, {e: e for e in S.edges}, labels={label}).get(label)
+    b = CM.evaluate(T, inv_n, inv_e, labels={label}).get(label)
+    tol = CM.BY_LABEL[label][3]
+    if a is None or b is None or CM.same(a, b, tol):
+        return None
+    return f"{label} on a SimplicialComplex: original vs relabelled/re-inserted (mapped back): " + CM.first_diff(a, b, tol)
+
+
+def run_sc(ctx, n, first_seen=None):
+    rng = ctx.rng
+    for i in range(n):
+        nodes, edges = gen_hypergraph(rng, max_nodes=6, max_edges=3, max_size=rng.choice([2, 3, 4]), labels=LABELS[i % len(LABELS)], isolated=True, multi=False)
+        simplices = [ms for _, ms in edges]
+        kind = ("id", "ints", "str", "collide", "tuple")[i % 5]
+        var = make_variant(rng, nodes, [(j, ms) for j, ms in enumerate(simplices)], kind, True)
+        pi = {dec_id(a): dec_id(b) for a, b in var["pi"]}
+        seed = rng.randint(0, 10 ** 9)
+        ctx.stats["simplicial-complex:pairs"] += 1
+        for label in CM.BY_LABEL:
+            try:
+                d = sc_differs(nodes, simplices, pi, seed, label)
+            except AssertionError:
+                raise
+            except Exception as ex:  # noqa
+                d = None
+                ctx.stats["simplicial-complex:harness-skip:" + type(ex).__name__] += 1
+            ctx.evaluations += 1
+            if d:
+                site = CM.BY_LABEL[label][0]
+                cls = "not-order-invariant" if kind == "id" else "not-relabel-invariant"
+                ctx.violation(site, cls, {"measure": label, "simplicial_complex": {"nodes": [enc_id(x) for x in nodes], "simplices": [[enc_id(x) for x in ms] for ms in simplices],
+                                          "pi": var["pi"], "order_seed": seed}}, detail=d)
+                ctx.stats["violation:" + site] += 1
+
+
 # ------------------------------------------------------------------------------------------------ the check
 
 def load_corpus():
@@ -476,12 +886,13 @@ def metamorphic(ctx, case, base, H, labels=None, first_seen=None):
     failed_order = set()
     obs0 = CM.observe(H, {n: n for n in H.nodes}, {e: e for e in H.edges}) if labels is None else {}
     for relabel in ("id",) + RELABELS:
-        for nodes_first in (True, False):
+        # the two new relabellings (str()-colliding pool, tuples) under one insertion order each, drawn at random
+        for nodes_first in ((True, False) if relabel in ("id", "ints", "perm", "str") else (rng.random() < 0.5,)):
             var = make_variant(rng, nodes, edges, relabel, nodes_first)
             H2, inv_n, inv_e = build_variant(var, case)
             if relabel == "perm" and len(edges) >= 2 and list(H2.edges) != list(range(len(edges))):
                 ctx.stats["variant:edge-id-differs-from-position"] += 1
-            res = CM.evaluate(H2, inv_n, inv_e, labels=labels, skip_flags=skip0 | (set() if relabel == "id" else {"order-only"}))
+            res = CM.evaluate(H2, inv_n, inv_e, labels=labels, skip_flags=skip0 | (set() if relabel == "id" else {"order-only"}) | UNORDERABLE.get(relabel, set()))
             if obs0:
                 for (site, label, shape, tol, _), (_, b) in zip(CM.OBS, CM.observe(H2, inv_n, inv_e).items()):
                     if not CM.same(obs0[label], b, tol):
@@ -613,17 +1024,27 @@ def run(ctx):
                 "sizes containing a pair a, a+8 such as 1 and 9) from one PRNG, 85 % of them with "
                 "an edge attribute 'weight' (on ~75 % of the edges, values 1/2/3/0.5/2.5) and a node attribute 'mass'; edge-ID "
                 "schemes cycled over identity / reversed and rotated permutations of 0..m-1 / gapped ints / strings / mixed, node labels over "
-                "ints / gapped / negative / strings / mixed; each case is re-inserted twice under the identity labelling and under three "
-                "relabellings (gapped ints, non-identity permutation of 0..k-1 and 0..m-1, strings) x two insertion orders (nodes, edges and "
-                "members shuffled; nodes before edges with attributes given at insertion, or after edges with attributes attached by the "
-                f"setters); attributes travel with their node / edge; {len(CM.M)} structural quantities incl. the weighted variants compared "
+                "ints / gapped / negative / strings / mixed / a pool equal under str() (1, '1', 0, '0', ...; also an edge-ID scheme); every 6th case a "
+                "path-like hypergraph of 5-8 nodes with edges listed from a random end and nodes pre-inserted in another order; each case is "
+                "re-inserted twice under the identity labelling and under five relabellings (gapped ints, half of them above 2**53; non-identity "
+                "permutation of 0..k-1 and 0..m-1; strings; the str()-colliding pool; tuples mixed with their str() and ints) — the first three x two "
+                "insertion orders (nodes, edges and members shuffled; nodes before edges with attributes given at insertion, or after edges with "
+                "attributes attached by the setters), the last two under one order drawn at random; attributes travel with their node / edge; "
+                "plus, implementation only: 20 held-object sequences (all quantities on one object vs the opposite call order on a fresh equal "
+                "network, then a count-preserving and an ordinary in-place edit, all quantities again vs a fresh equal network), 3 large networks "
+                "(70-90 nodes or 130-140 parallel edges, labels above 2**53, 41 cheaper quantities, two variants each) and 20 SimplicialComplex "
+                f"pairs (faces matched by member set); {len(CM.M)} structural quantities incl. the weighted variants compared "
                 "after mapping back; the modelled measures are compared with the Lean model on the original; non-trivial = distinct case with "
                 "an edge of >=2 members")
     first_seen, dis_sites = set(), Counter()
     corpus = load_corpus()
     ctx.stats["corpus_cases"] = len(corpus)
-    cases = corpus + [mk_case(ctx.rng, i) for i in range(ctx.n(70, 1500))]
+    cases = corpus + [mk_case(ctx.rng, i) for i in range(ctx.n(60, 1500))]
     run_cases(ctx, cases, first_seen=first_seen, dis_sites=dis_sites)
+    # review-2 families, implementation only: held objects (state across calls), large networks, SimplicialComplex instances
+    run_held(ctx, ctx.n(20, 300), first_seen=first_seen)
+    run_large(ctx, ctx.n(3, 12), first_seen=first_seen)
+    run_sc(ctx, ctx.n(20, 300), first_seen=first_seen)
     if not ctx.quick:
         small = [{"nodes": list(ns), "edges": [[e, list(ms)] for e, ms in es]} for ns, es in all_small_hypergraphs(4, 3)]
         run_cases(ctx, small, meta=False, dis_sites=dis_sites)
@@ -645,10 +1066,16 @@ def run(ctx):
                           detail="; ".join(ctx.broken)[:500], kind="unproven", broken=ctx.broken)
     completion_report(ctx)
     ctx.assumptions = [
-        "IDs are int or str (mixed allowed); bool/float/tuple IDs and empty edges are outside the generated domain",
+        "originals have int / str IDs (mixed allowed, incl. pairs equal under str() such as 1 and '1'); tuple IDs and integers above 2**53 occur in "
+        "the relabelled variants (and above 2**53 in the large originals); bool / float IDs and empty edges are outside the generated domain",
+        "held-object family: the reference is a fresh xgi.Hypergraph rebuilt from the live object's own views (nodes, members, attributes) in the "
+        "object's own order; an edit the library refuses ends the sequence",
+        "SimplicialComplex family: a complex names its own faces, so edge IDs are matched through the member sets; quantities flagged order-only / "
+        "needing orderable edge IDs are left out there",
         "attributes: one numeric edge attribute ('weight', missing on some edges) and one numeric node attribute ('mass'); they are data of the "
         "node / edge and travel with it under the relabelling",
-        "simpliciality measures are compared only when node labels are mutually orderable (Trie sorts members; mixed int/str labels raise TypeError there)",
+        "simpliciality measures are compared only when node labels are mutually orderable on BOTH sides (Trie sorts members; mixed int/str labels raise "
+        "TypeError there): never under the str()-colliding and tuple relabellings",
         "edges.duplicates() / nodes.duplicates() leave out the smallest ID of every class of equal IDs (sorted(); insertion order when the IDs are not "
         "mutually orderable): under RELABELLING only the classes are compared (which ID is smallest is not preserved by an arbitrary bijection; "
         "Lean: C09_duplicates_rename needs an order-preserving sigma, counter-example in Props/C09.lean), under RE-INSERTION ALONE the exact result "
@@ -669,8 +1096,20 @@ def run(ctx):
 def replay(ctx, path):
     j = json.load(open(path))
     c = j.get("case", j)
+    if "simplicial_complex" in c:
+        sc = c["simplicial_complex"]
+        d = sc_differs([dec_id(x) for x in sc["nodes"]], [[dec_id(x) for x in ms] for ms in sc["simplices"]],
+                       {dec_id(a): dec_id(b) for a, b in sc["pi"]}, sc["order_seed"], c["measure"])
+        print(f"SimplicialComplex: nodes={sc['nodes']} simplices={sc['simplices']} relabelling={sc['pi']}")
+        print(("STILL DIFFERS: " + d) if d else f"{c['measure']}: equal after mapping back")
+        return 1 if d else 0
     case, label = c["original"], c["measure"]
     CM.GUARD["force"] = True
+    if "held" in c:                             # held-object family: stale-after-edit / depends-on-earlier-call
+        d = held_differs(case, c["held"]["edits"], label, c["held"].get("warm", "all"))
+        print(f"original: nodes={case['nodes']} edges={case['edges']}; on the SAME object: measures ({c['held'].get('warm', 'all')}), then edits {c['held']['edits']}, then {label}")
+        print(("STILL DIFFERS: " + d) if d else f"{label}: the live object agrees with a freshly built equal network")
+        return 1 if d else 0
     if "variant" not in c:                      # failure class no-answer-within-cpu-budget: the measure did not return
         d = hangs(case, label)
         print(f"original: nodes={case['nodes']} edges={case['edges']}")
